@@ -80,7 +80,7 @@ type WOpts struct {
 }
 
 var WireFeatures = []string{"bind", "bind-value-impl", "value", "ivalue", "struct", "struct-fields", "struct-value-consumer", "fieldsof", "fieldsof-value", "fieldsof-ptr",
-	"sets", "nested-sets", "inline-sets", "inline-sets-deep", "struct-unexported-field", "ext-alias-suffix", "ext-name-differs-from-path", "composite", "same-name-packages-across-files", "fieldsof-twice", "second-injector", "err", "args", "unused-arg", "multi-file", "ext", "bind-foreign-ctor", "bind-split-set", "multi-result"}
+	"sets", "nested-sets", "inline-sets", "inline-sets-deep", "struct-unexported-field", "ext-alias-suffix", "ext-name-differs-from-path", "composite", "same-name-packages-across-files", "fieldsof-twice", "second-injector", "twin-types-in-same-named-packages", "err", "args", "unused-arg", "multi-file", "ext", "bind-foreign-ctor", "bind-split-set", "multi-result"}
 
 func WAllowAll(except ...string) map[string]bool {
 	m := map[string]bool{}
@@ -109,6 +109,10 @@ type wgen struct {
 	provides [][]TypeID
 	args     []TypeID
 	pid      int
+	// twin scenario: the two providers of same-named types in same-named packages, and the
+	// types the requested type's provider takes from them
+	twinUnits []int
+	twinWant  []TypeID
 }
 
 func (g *wgen) want(f, label string, pct int) bool {
@@ -311,6 +315,32 @@ func GenWire(rt *rapid.T, o WOpts) *WCase {
 	g.c = g.w.Spec
 	g.c.Types = []Type{{ID: 0, Kind: "none"}}
 	n := rapid.IntRange(2, o.MaxUnits).Draw(rt, "nunits")
+	if o.ExtNames && o.Allow["ext"] && o.Allow["bind"] && rapid.IntRange(0, 99).Draw(rt, "twin-types") < 30 {
+		// two packages with the same NAME that declare a type with the same NAME: the provider of
+		// one is bound to an interface, the provider of the other is an ordinary provider
+		g.c.Exts = append(g.c.Exts, Ext{Key: "ext", Path: "a/util", Name: "util"}, Ext{Key: "ext2", Path: "b/util", Name: "util", Alias: "util2"})
+		g.w.AddFeature("ext")
+		g.w.AddFeature("twin-types-in-same-named-packages")
+		for _, key := range []string{"ext", "ext2"} {
+			g.pid++
+			s := g.addType(Type{Kind: KStruct, Name: g.extTypeName(key), Pkg: key})
+			res := g.ptrTo(s)
+			p := Prov{ID: g.pid, Form: "ext", Pkg: key, Name: "New" + g.c.T(s).Name, Results: []TypeID{res}}
+			g.used[key+"."+p.Name] = true
+			g.c.Provs = append(g.c.Provs, p)
+			g.twinUnits = append(g.twinUnits, g.addUnit(WElem{Kind: "prov", Prov: p.ID}, nil, []TypeID{res}))
+			if key == "ext2" {
+				g.twinWant = append(g.twinWant, res)
+			}
+			if key == "ext" {
+				it := g.addType(Type{Kind: KIface, Name: g.name("I"), Impl: res})
+				g.c.Types[int(it)].Method = "VH" + g.c.T(it).Name
+				g.addUnit(WElem{Kind: "bind", Iface: it, Impl: res}, []TypeID{res}, []TypeID{it})
+				g.twinWant = append(g.twinWant, it)
+				g.w.AddFeature("bind")
+			}
+		}
+	}
 	for i := 0; i < n; i++ {
 		last := i == n-1
 		k := rapid.IntRange(0, 99).Draw(rt, "ukind")
@@ -363,6 +393,14 @@ func (g *wgen) genProv(last bool) {
 		np = rapid.IntRange(2, 4).Draw(g.rt, "lastparams")
 	}
 	seen := map[TypeID]bool{}
+	if last {
+		// the twin scenario's interface and second provider are consumed by the requested type
+		for _, t := range g.twinWant {
+			seen[t] = true
+			g.consumed[t] = true
+			p.Params = append(p.Params, t)
+		}
+	}
 	for i := 0; i < np; i++ {
 		if !last && pkg == "" && rapid.IntRange(0, 9).Draw(g.rt, "argsrc") >= 8 && g.o.Allow["args"] {
 			var t TypeID
@@ -409,7 +447,7 @@ func (g *wgen) genProv(last bool) {
 	prov := []TypeID{res}
 	ui := len(g.units)
 	st := g.c.StructOf(res)
-	if st != nil && pkg == "" && len(st.Fields) == 0 && g.want("bind", "bind", 28) {
+	if st != nil && len(st.Fields) == 0 && g.want("bind", "bind", 28) {
 		valueImpl := g.c.T(res).Kind != KPtr
 		if valueImpl && !g.o.Allow["bind-value-impl"] {
 			if g.o.OnExclude != nil {
@@ -637,7 +675,7 @@ func (g *wgen) assemble() {
 	usesExt1 := func(u int) bool {
 		return g.units[u].Kind == "prov" && g.c.ProvByID(g.units[u].Prov).Pkg == "ext"
 	}
-	if g.c.Ext("ext2") != nil && g.o.MaxFiles >= 2 {
+	if g.c.Ext("ext2") != nil && g.o.MaxFiles >= 2 && len(g.twinUnits) == 0 {
 		for u := range g.units {
 			if usesExt2(u) {
 				sameName = true
@@ -660,6 +698,9 @@ func (g *wgen) assemble() {
 			} else if usesExt1(u) {
 				group[u] = 0
 			}
+		}
+		if len(g.twinUnits) == 2 && u == g.twinUnits[1] {
+			group[u] = group[g.twinUnits[0]] // both same-named types are provided in one element list
 		}
 		if g.units[u].Kind == "bind" && u > 0 {
 			group[u] = group[u-1]
